@@ -257,7 +257,7 @@ class Vocab:
         cores = [g for g in crate if any(digit_table(P, x) for x in g.walk())]
         self.vlq_core = cores[0] if len(cores) == 1 else P.fn("sourcemap_writer::base64_vlq::base64_vlq")
         self.vlq_fns = {g.path for g in crate if self.vlq_core.path in P.reachable([g]) and any(peel_ty(t) == "isize" for t in g.sig_inputs)} | {self.vlq_core.path}
-        self.utf16_len = P.fn("sourcemap_writer::source_writer::utf16_len::utf16_len")
+        self.utf16_len = P.fn("sourcemap_writer::source_writer::utf16_len::utf16_len", required=False)   # may be inlined away / replaced by a std idiom
         # --- which counter remembers what: told by the field names when they use the Source Map vocabulary
         roles = {}
         for b in self.bases:
@@ -569,6 +569,16 @@ def _direct(v):
             else:
                 st.extend(y for y in x.values() if isinstance(y, (dict, list)))
     return out
+
+
+def utf16_measured(V, atoms):
+    """is a length among these atoms measured in UTF-16 code units?  True: through the crate's utf16_len helper, `encode_utf16()` or
+    `char::len_utf16`; False: by a count of chars / bytes (`chars().count()`, `len()`, `len_utf8`); None: no measure recognised"""
+    calls = {a[1].split("::")[-1] for a in atoms if a[0] == "call"}
+    if (V.utf16_len is not None and has_call(atoms, V.utf16_len.path)) or calls & {"encode_utf16", "len_utf16"}:
+        return True
+    bad = sorted(calls & {"count", "len", "len_utf8"})
+    return False if bad else None
 
 
 def outside_param(atoms):
@@ -1168,6 +1178,27 @@ def r06d(P, R):
     R.floor("R06-d", "write_for call sites in the printers", total, 28)
 
 
+def sources_in_store_order(P):
+    """`sources` is computed by one zip of the index table with the file store, filtered, without reordering"""
+    w = P.fn("nitrogql_cli::generate::write_file_and_sourcemap", required=False)
+    if w is None:
+        return False
+    wi = inl(P, w)
+    CW = Comp(P, wi)
+    for c in wi.walk():
+        if c.get("k") == "Call" and (call_name(c) or "").endswith("print_source_map_json") and len(c["args"]) > 1:
+            flow, seen, todo = [], set(), [c["args"][1]]
+            while todo:
+                for y in subnodes(todo.pop()):
+                    flow.append(y)
+                    if y.get("k") == "Path" and "local" in y and y["local"] not in seen and (y["local"] in CW.single or y["local"] in CW.patb):
+                        seen.add(y["local"])
+                        todo.append(CW.single[y["local"]] if y["local"] in CW.single else CW.patb[y["local"]][0])
+            ms_ = [y["method"] for y in flow if y.get("k") == "MethodCall"]
+            return ms_.count("zip") == 1 and not any(m in ("rev", "sorted", "sort_by", "sort", "sort_by_key", "sorted_by_key", "sort_unstable", "reverse") for m in ms_)
+    return False
+
+
 def r06e(P, R):
     """sources agreement: the index mapper and the `sources` list come from one FileMap; sources relative to the map's file"""
     rg0 = P.fn("nitrogql_cli::generate::run_generate")
@@ -1335,7 +1366,20 @@ def r06e(P, R):
             return absent(v) or to_schema_len(v) or (isinstance(v, dict) and v.get("k") == "Path" and "local" in v)
 
         def to_schema_len(v):
+            v = C.resolve(v) if isinstance(v, dict) else v      # `let slot = file_store.schema_len();` hoisted out of the closure
             return isinstance(v, dict) and v.get("k") == "MethodCall" and (call_name(v) or "").endswith("FileStore::schema_len")
+        # writer/reader agreement: when `sources` is the store-order sub-list of the files whose entry is not the marker, a file's index
+        # is its rank in that order.  Schema files come first in the store and the one document file follows them; a table that pins
+        # the document to slot schema_len() *and* gives slots to further non-schema files numbers them "after the document", which is
+        # their rank only if the document happens to precede them in the store.
+        own_rows = [v for sch, _, v in rows if not sch and to_schema_len(v)]
+        extra = [v for sch, _, v in rows if not sch and not to_schema_len(v) and not absent(v)
+                 and not (isinstance(v, dict) and v.get("k") == "Path" and "local" in v and not to_schema_len(v))]
+        if own_rows and extra and sources_in_store_order(P):
+            R.violated("R06-e", "index-table:order:%d" % j, "the index table pins the generated file's own document to slot schema_len() and gives further "
+                       "non-schema files the slots after it, but `sources` lists the files in file-store order: when such a file precedes the document "
+                       "in the store, the document's segments and that file's segments point at each other's source", loc=rg.loc())
+            continue
         if not all(known(v) for _, _, v in rows) or (default is not None and default and not known(default)):
             R.undecided("R06-e", "index-table:%d" % j, "a row of the index table yields a value this rule does not read (neither an index, schema_len(), "
                         "nor the not-a-source marker)", loc=rg.loc())
@@ -1460,9 +1504,34 @@ def r06e(P, R):
     pvp = Prov(psm)
     rel = [c for c in psm.walk() if c.get("k") == "Call" and (call_name(c) or "").endswith("relative_path::relative_path")]
     srcs = [c for c in psm.walk() if c.get("k") == "MethodCall" and c["args"] and lit_value(c["args"][0]) == "sources"]
+    if not rel:
+        # another function of the same path-relativising family (e.g. one that takes the directory of the generated file)
+        rel = [c for c in psm.walk() if c.get("k") == "Call" and "::relative_path::" in (call_name(c) or "") and len(c["args"]) == 2]
     if rel:
         ok = ("param", "file") in pvp.atoms(rel[0]["args"][0]) and ("param", "source_files") in pvp.atoms(rel[0]["args"][1])
         R.check("R06-e", "sources-relative", ok, "each source is relative_path(generated file, source file)", "sources are not relative to the generated file", loc=psm.loc())
+        # both paths are compared component by component, so both have to be normalised (`..`, `.` resolved) — by the function that
+        # compares them or by its caller; the generated file's path comes from the configuration as written
+        g = P.fns.get(call_name(rel[0]) or "")
+        if ok and g is not None and g.kind == "Fn":
+            gi = inl(P, g)
+            pvg = Prov(gi)
+            pnames = [pvg.params.get(p_.get("local")) if p_.get("k") == "Binding" else None for p_ in gi.params]
+            raw = []
+            for k_, what in ((0, "the generated file's path"), (1, "the source path")):
+                by_caller = has_call(pvp.atoms(rel[0]["args"][k_]), "normalize_path")
+                by_callee = k_ < len(pnames) and pnames[k_] is not None and any(
+                    x.get("k") == "Call" and (call_name(x) or "").endswith("normalize_path") and x["args"] and ("param", pnames[k_]) in pvg.atoms(x["args"][0])
+                    for x in gi.walk())
+                if not by_caller and not by_callee:
+                    raw.append(what)
+            normalises = any(x.get("k") == "Call" and (call_name(x) or "").endswith("normalize_path") for x in gi.walk())
+            if raw and normalises:
+                R.violated("R06-e", "sources-normalised", "%s is handed to %s without being normalised (neither print_source_map_json nor %s applies "
+                           "normalize_path to it, while the other path is): with `..` in the configured output path the components no longer line up and "
+                           "`sources` point outside the project" % (" and ".join(raw), g.name, g.name), loc=psm.loc())
+            elif normalises:
+                R.holds("R06-e", "sources-normalised", "both paths are normalised before they are compared", loc=psm.loc())
     elif srcs and any(("param", "source_files") in pvp.atoms(a) for c in srcs for a in c["args"][1:]):
         R.violated("R06-e", "sources-relative", "the `sources` entry is written from the source paths without relative_path: sources are not relative to "
                    "the generated file", loc=psm.loc())
@@ -1497,13 +1566,20 @@ def r06f(P, R):
     R.floor("R06-f", "column increments by the written text (write and its helpers)", len(incs), 1)
     for e in incs:
         a = pv.atoms(e)
-        ok = has_call(a, V.utf16_len.path) and not any(x[0] == "call" and x[1].split("::")[-1] in ("count", "len", "len_utf8") for x in a)
-        R.check("R06-f", "column-units:write", ok, "generated column advances by utf16_len(line)",
-                "SourceWriter::write advances the generated column by something other than the UTF-16 length of the text "
-                "(source map columns are UTF-16 code units): segments after a non-BMP character are misplaced", loc=w.loc())
+        m_ = utf16_measured(V, a)
+        if m_ is True and V.utf16_len is not None and any(x[0] == "call" and x[1].split("::")[-1] in ("count", "len", "len_utf8") for x in a):
+            m_ = False      # the helper is there, but something else is counted as well
+        if m_ is None:
+            R.undecided("R06-f", "column-units:write", "how the advance of the generated column measures the text was not recognised", loc=w.loc())
+        else:
+            R.check("R06-f", "column-units:write", m_, "generated column advances by the UTF-16 length of the text",
+                    "SourceWriter::write advances the generated column by something other than the UTF-16 length of the text "
+                    "(source map columns are UTF-16 code units): segments after a non-BMP character are misplaced", loc=w.loc())
     u = V.utf16_len
-    methods = [x["method"] for x in u.walk() if x.get("k") == "MethodCall"]
-    if "len_utf16" in methods and "sum" in methods:
+    methods = [x["method"] for x in u.walk() if x.get("k") == "MethodCall"] if u is not None else []
+    if u is None:
+        R.holds("R06-f", "utf16_len-def", "no separate length helper: the measuring expressions are checked where they are used")
+    elif "len_utf16" in methods and "sum" in methods:
         R.holds("R06-f", "utf16_len-def", "utf16_len sums char::len_utf16", loc=u.loc())
     elif "encode_utf16" in methods and ("count" in methods or "len" in methods):
         R.holds("R06-f", "utf16_len-def", "utf16_len counts the UTF-16 code units of the text", loc=u.loc())
@@ -1541,8 +1617,13 @@ def r06f(P, R):
         common = set.intersection(*[set(r[0]) for r in cols])
         closing = [r for r in cols if ("op", "+") in r[0] and (len(cols) == 1 or any(a[0] not in ("lit", "op") for a in set(r[0]) - common))]
         if len(closing) == 1:
-            R.check("R06-f", "closing-segment-units", has_call(closing[0][0], V.utf16_len.path), "range-closing segment = original column + utf16_len(name)",
-                    "the range-closing segment is not `original column + utf16_len(name)`", loc=wf.loc())
+            m_ = utf16_measured(V, closing[0][0])
+            if m_ is None:
+                R.undecided("R06-f", "closing-segment-units", "how the range-closing segment measures the name was not recognised", loc=wf.loc())
+            else:
+                R.check("R06-f", "closing-segment-units", m_, "range-closing segment = original column + utf16_len(name)",
+                        "the range-closing segment is not `original column + utf16_len(name)`: the name is measured in chars or bytes, not in "
+                        "UTF-16 code units", loc=wf.loc())
         elif not closing and len(cols) >= 2 and all(r[1] for r in cols):
             R.violated("R06-f", "closing-segment-units", "no segment of write_for adds the length of the name to the original column: the range-closing "
                        "segment is not `original column + utf16_len(name)`", loc=wf.loc())
